@@ -50,6 +50,13 @@ def c01_tables() -> core.Result:
     res.obs.append(_set_ob("C01/tb/_TYPE_SPEC_SIMPLE", P._TYPE_SPEC_SIMPLE, SD.SIMPLE_TYPES.values(), "_TYPE_SPEC_SIMPLE"))
     res.obs.append(_set_ob("C01/tb/_ASSIGNMENT_OPS", P._ASSIGNMENT_OPS, SG.ASSIGN_OPS.values(), "_ASSIGNMENT_OPS"))
     res.obs.append(_set_ob("C01/tb/_BINARY_PRECEDENCE.keys", P._BINARY_PRECEDENCE.keys(), SG.BINOP_TOKENS.values(), "_BINARY_PRECEDENCE"))
+    # C99 6.4.6: the digraphs <: :> <% %> %: are punctuators (alternative spellings of [ ] { } #)
+    L = gx.c_lexer
+    have = {ft.literal for ft in L._fixed_tokens}
+    missing = [d for d in ("<:", ":>", "<%", "%>") if d not in have]
+    rep = _replay_for_missing_start("digraph", "int a<:3:> = <% 1, 2, 3 %>;\n")
+    res.obs.append(_ob("C01/tb/punctuators/digraphs", not missing,
+                       (f"digraph punctuators {missing} are not tokens" if missing else "digraphs are tokens"), "c_lexer._fixed_tokens", rep))
     for q in ("CParser._starts_declaration", "CParser._starts_expression", "CParser._starts_statement"):
         if src.has(q):
             res.functions.append(src.func(q))
